@@ -35,6 +35,9 @@ type Case struct {
 	After bool `json:"after,omitempty"`
 	// Repeat: that many further Do calls on the same value afterwards (call counters must not wrap into a re-run)
 	Repeat int `json:"repeat,omitempty"`
+	// NilWaiters: that many extra callers pass a NIL function; they start only after the action is known to be running
+	// (so the nil function is never the one to be invoked) and must wait for it and get its results like everybody else
+	NilWaiters int `json:"nil_waiters,omitempty"`
 }
 
 type vals struct {
@@ -60,6 +63,21 @@ type once struct {
 type idErr int
 
 func (e idErr) Error() string { return fmt.Sprintf("error of caller %d", int(e)) }
+
+// doNil calls Do with a nil function (plain variants 1..3 only).
+func (o *once) doNil() vals {
+	switch o.v {
+	case 1:
+		a := o.o1.Do(nil)
+		return vals{A: a, B: valsOf(a / 1000).B, C: valsOf(a / 1000).C}
+	case 2:
+		a, b := o.o2.Do(nil)
+		return vals{A: a, B: b, C: valsOf(a / 1000).C}
+	default:
+		a, b, c := o.o3.Do(nil)
+		return vals{A: a, B: b, C: c}
+	}
+}
 
 func (o *once) do(i int, body func()) vals {
 	w := valsOf(i)
@@ -108,7 +126,10 @@ func Run(c Case) pbt.Outcome {
 	if c.Procs > 0 {
 		defer runtime.GOMAXPROCS(runtime.GOMAXPROCS(c.Procs))
 	}
-	n := c.NBefore + c.NAfter
+	if c.NilIface != 0 || c.Variant > 3 || c.Panics || c.Goexit {
+		c.NilWaiters = 0
+	}
+	n := c.NBefore + c.NAfter + c.NilWaiters
 	o := &once{v: c.Variant, ne: c.NilIface}
 	other := &once{v: c.Variant, ne: c.NilIface}
 	// a third Once value, of ANOTHER variant (other result types), which every caller uses immediately after its Do returned
@@ -186,6 +207,27 @@ func Run(c Case) pbt.Outcome {
 	for spins := 0; int(calling.Load()) < c.NBefore && spins < 1_000_000; spins++ {
 		runtime.Gosched()
 	}
+	// callers passing a nil function join while the action is running
+	for k := 0; k < c.NilWaiters; k++ {
+		i := c.NBefore + c.NAfter + k
+		wg.Add(1)
+		go func() {
+			defer wg.Done()
+			defer func() {
+				if p := recover(); p != nil {
+					panicked[i] = true
+					returned.Add(1)
+				}
+			}()
+			calling.Add(1)
+			got[i] = o.doNil()
+			sawCompleted[i] = completed
+			returned.Add(1)
+		}()
+	}
+	for spins := 0; int(calling.Load()) < c.NBefore+c.NilWaiters && spins < 1_000_000; spins++ {
+		runtime.Gosched()
+	}
 	if c.Other == 1 {
 		// an unrelated Once value of the same type starts and finishes while ours is still running
 		other.do(900, func() {})
@@ -201,7 +243,7 @@ func Run(c Case) pbt.Outcome {
 	if r := returned.Load(); r != 0 {
 		close(gate)
 		wg.Wait()
-		return pbt.Fail("%d of %d Do calls returned while the action (caller %d's function) was still running", r, c.NBefore, first)
+		return pbt.Fail("%d of %d Do calls (%d of them passing a nil function, started after the action was running) returned while the action (caller %d's function) was still running", r, c.NBefore+c.NilWaiters, c.NilWaiters, first)
 	}
 	select {
 	case second := <-entered:
@@ -213,7 +255,7 @@ func Run(c Case) pbt.Outcome {
 	close(gate)
 	wg.Wait()
 	// later callers
-	for i := c.NBefore; i < n; i++ {
+	for i := c.NBefore; i < c.NBefore+c.NAfter; i++ {
 		wg.Add(1)
 		go call(i, false)
 	}
@@ -252,7 +294,7 @@ func Run(c Case) pbt.Outcome {
 		case 1:
 			wantAfter = vals{A: wantAfter.A, B: valsOf(wantAfter.A / 1000).B, C: valsOf(wantAfter.A / 1000).C}
 		}
-		for i := 0; i < n; i++ {
+		for i := 0; i < c.NBefore+c.NAfter; i++ {
 			if gotAfter[i] != wantAfter {
 				return pbt.Fail("caller %d used a second, unrelated Once value right after the first one: its Do returned %+v, but that Once's invoked function returned %+v (results of different Once values got mixed up)", i, gotAfter[i], wantAfter)
 			}
@@ -296,6 +338,9 @@ func Run(c Case) pbt.Outcome {
 	if c.NBefore >= 2 {
 		out.Labels = append(out.Labels, "contended")
 	}
+	if c.NilWaiters > 0 {
+		out.Labels = append(out.Labels, "waiters-passing-a-nil-function")
+	}
 	if c.NAfter > 0 {
 		out.Labels = append(out.Labels, "later-callers")
 	}
@@ -316,7 +361,7 @@ func counts(a []atomic.Int32) []int32 {
 var spec = pbt.Register(&pbt.Spec[Case]{
 	Property: "C17", Name: "C17.once",
 	Rule: "E4 under -race: variant in {Once1,Once2,Once3} x 1..8 early callers (each with its own function returning values unique to it, counting its invocations, signalling 'entered', " +
-		"then blocking on a harness gate, finally writing a PLAIN completion flag) x 0..4 later callers x GOMAXPROCS x arrival stagger; in one case of six every passed function panics after the gate opens (callers recover; then only 'exactly one invocation in total' is asserted), in another sixth they end their goroutine with runtime.Goexit; in half of the cases a DIFFERENT Once value of the same type runs to completion while ours is held open (from another goroutine or from inside the held action); Once1 is also instantiated with an interface result type (error) returning nil or non-nil, Once2/Once3 with a non-nil error as last result; in a third of the cases every caller uses another, unrelated Once value (other result types) right after its Do returned; in one case of 150 300 or 65539 further calls follow on the same value. Oracle: exactly one 'entered' ever; while the gate is closed no Do has returned " +
+		"then blocking on a harness gate, finally writing a PLAIN completion flag) x 0..4 later callers x GOMAXPROCS x arrival stagger; in one case of six every passed function panics after the gate opens (callers recover; then only 'exactly one invocation in total' is asserted), in another sixth they end their goroutine with runtime.Goexit; in half of the cases a DIFFERENT Once value of the same type runs to completion while ours is held open (from another goroutine or from inside the held action); Once1 is also instantiated with an interface result type (error) returning nil or non-nil, Once2/Once3 with a non-nil error as last result; in a third of the cases every caller uses another, unrelated Once value (other result types) right after its Do returned; in one case of 150 300 or 65539 further calls follow on the same value; in a quarter of the cases 1..3 extra callers pass a NIL function after the action is known to be running (they wait and get the results like everybody else). Oracle: exactly one 'entered' ever; while the gate is closed no Do has returned " +
 		"(sound: the action has not completed); afterwards every Do returned exactly the invoked function's values; total invocations == 1; every caller reads the plain flag after Do (must be true; the race detector " +
 		"reports any read not ordered after the write). non-trivial = >=2 early callers",
 	Gen: func(t *rapid.T) Case {
@@ -340,6 +385,9 @@ var spec = pbt.Register(&pbt.Spec[Case]{
 			c.NilIface = 0
 		}
 		c.After = !c.Panics && !c.Goexit && rapid.IntRange(0, 2).Draw(t, "after") == 0
+		if rapid.IntRange(0, 3).Draw(t, "nilwaiters") == 2 {
+			c.NilWaiters = rapid.IntRange(1, 3).Draw(t, "nnil")
+		}
 		if !c.Panics && !c.Goexit && rapid.IntRange(0, 59).Draw(t, "repeat") == 33 {
 			c.Repeat = rapid.SampledFrom([]int{300, 65536 + 3}).Draw(t, "nrepeat")
 		}
